@@ -296,7 +296,19 @@ func checkC16(x *X, c *Case, strict bool) *Outcome {
 		o.Tags = commonTags(c, refU)
 	}
 	mode, frac := c.Aux["mode"], c.Aux["frac"]
+	hasLR := false
+	for _, r := range g.Rules {
+		hasLR = hasLR || r.LR != nil
+	}
+	if hasLR {
+		o.Tags = append(o.Tags, "left_recursive")
+	}
 	for _, pk := range livePkgs(x.G) {
+		if hasLR && pk.Optimized {
+			// the evaluation count of a left-recursive parse is only known from the parser's own
+			// statistics, which -optimize-parser removes
+			continue
+		}
 		cc := *c
 		if pk.Optimized {
 			cc.Opts.Memoize, cc.Opts.Stats, cc.Opts.Debug = false, false, false
@@ -316,7 +328,7 @@ func checkC16(x *X, c *Case, strict bool) *Outcome {
 			n = []uint64{1, 10, 100, 1000, 5000, 20000, 3, 50}[mode%8]
 			cc.Opts.MaxExpr = n
 		} else {
-			if memo {
+			if memo || hasLR {
 				// N is only known from the parser's own statistics
 				uc := cc
 				uc.Opts.MaxExpr = 0
@@ -358,7 +370,7 @@ func checkC16(x *X, c *Case, strict bool) *Outcome {
 				o.Viol = viol(pk, &cc, "diverging_must_report", fmt.Sprintf("diverging parse with MaxExpressions(%d) must end with the %q error and a nil value", budget, maxExprMsg), "", describeResp(resp))
 				return o
 			}
-			if !memo {
+			if !memo && !hasLR {
 				// the reference with the same budget predicts the complete outcome
 				rb := refpeg.Eval(g, c.Input, refOpts(&cc))
 				if !rb.OverBudget && knownExclusion(x, rb, strict) == "" {
@@ -383,7 +395,7 @@ func checkC16(x *X, c *Case, strict bool) *Outcome {
 				o.Viol = viol(pk, &cc, "exhausted_budget_must_report", fmt.Sprintf("N=%d, MaxExpressions(%d): want nil value and the %q error last", n, budget, maxExprMsg), describeResp(rU), describeResp(resp))
 				return o
 			}
-			if !memo {
+			if !memo && !hasLR {
 				rb := refpeg.Eval(g, c.Input, refOpts(&cc))
 				if !rb.OverBudget {
 					if d := compareErrors(rb, resp, ctx); d != "" {
@@ -393,7 +405,7 @@ func checkC16(x *X, c *Case, strict bool) *Outcome {
 				}
 			}
 		}
-		if !memo && !pk.Optimized && rU != nil && rU.HasStats && rU.ExprCnt != uint64(refU.Stats.Steps) {
+		if !memo && !hasLR && !pk.Optimized && rU != nil && rU.HasStats && rU.ExprCnt != uint64(refU.Stats.Steps) {
 			o.Viol = viol(pk, &cc, "expr_count", fmt.Sprintf("Stats.ExprCnt = %d, the definition evaluates %d expressions", rU.ExprCnt, refU.Stats.Steps), "", "")
 			return o
 		}
